@@ -54,17 +54,16 @@ theorem szItems_toks : ∀ (b : List Item), szItems b = (itemsToks b).length ∧
 
 theorem szElems_toks : ∀ (es : List Elem), szElems es + es.length ≤ 2 * (elemsToks es).length
   | [] => by simp [szElems, elemsToks]
-  | e :: r => by
+  | .plain i :: r => by
     have ih := szElems_toks r
-    cases e with
-    | plain i =>
-      have hp := szItem_pos i
-      simp only [szElems, szElem, elemsToks, elemToks, List.length_append, List.length_cons, szItem_toks i] at hp ⊢
-      omega
-    | frame c b =>
-      have hb := szItems_toks b
-      simp only [szElems, szElem, elemsToks, elemToks, List.length_append, List.length_cons, List.length_nil] at ⊢
-      omega
+    have hp := szItem_pos i
+    simp only [szElems, szElem, elemsToks, elemToks, List.length_append, List.length_cons, szItem_toks i] at hp ⊢
+    omega
+  | .frame c b :: r => by
+    have ih := szElems_toks r
+    have hb := szElems_toks b
+    simp only [szElems, szElem, elemsToks, elemToks, List.length_append, List.length_cons, List.length_nil] at ⊢
+    omega
 
 theorem szBlocks_toks : ∀ (d : List Block), szBlocks d ≤ 2 * (blocksToks d).length + d.length
   | [] => by simp [szBlocks, blocksToks]
@@ -197,16 +196,9 @@ theorem loops_wf (o : Opts) : ∀ (loops : List WLoop) (its : List Item) (seen :
         Bool.not_false, Bool.true_and, Bool.and_eq_true, Bool.not_eq_true', List.isEmpty_eq_false_iff]
       exact ⟨⟨h1, hne⟩, ih its' _ hrel hr⟩
 
-theorem elems_plain_wf (o : Opts) (fseen : List Str) : ∀ (its : List Item) (seen : List Str),
-    wfElems o (its.map Elem.plain) seen fseen = wfItems o its seen := by
-  intro its
-  induction its with
-  | nil => intro _; rfl
-  | cons i r ih =>
-    intro seen
-    simp only [List.map_cons, wfElems]
-    rw [ih]
-    exact (wfItems_cons o i r seen).symm
+theorem elems_plain_wf (o : Opts) (fseen : List Str) (its : List Item) (seen : List Str) :
+    wfElems o (its.map Elem.plain) seen fseen = wfItems o its seen :=
+  wfElems_plains o its seen fseen
 
 theorem frames_wf (o : Opts) : ∀ (frames : List WContainer) (es : List Elem) (fseen : List Str) (tail : List Elem) (seen : List Str),
     FramesRel o frames es → framesN o frames fseen → (∀ fseen', wfElems o tail seen fseen' = true) →
@@ -223,7 +215,8 @@ theorem frames_wf (o : Opts) : ∀ (frames : List WContainer) (es : List Elem) (
     obtain ⟨code, loops, its, es', rfl, hrel, rfl, hrest⟩ := h
     simp only [framesN] at hn
     obtain ⟨h1, h2, h3, _, h5⟩ := hn
-    simp only [List.cons_append, wfElems, h1, h2, loops_wf o loops its [] hrel h3, Bool.not_false, Bool.and_self, Bool.true_and]
+    rw [List.cons_append, wfElems_frame, wfElems_plains, noFrames_plains]
+    simp only [h1, h2, loops_wf o loops its [] hrel h3, Bool.not_false, Bool.and_self, Bool.true_and, Bool.true_or]
     exact ih es' _ tail seen hrest h5 ht
 
 theorem blocks_wf (o : Opts) : ∀ (ks : List WContainer) (d : List Block) (bseen : List Str), All2 (BlockRel o) ks d → blocksN o ks bseen →
@@ -399,15 +392,9 @@ theorem loops_denote (o : Opts) : ∀ (loops : List WLoop) (its : List Item) (ac
       · simp only [backLoop, hs, Bool.false_eq_true, if_false]
         exact ⟨trivial, trivial, all2_back o _ _ hp⟩
 
-theorem denoteElems_plain (dia : Dialect) (nk : Str → Str) : ∀ (its : List Item) (fs : List Container) (ls : List Loop),
-    denoteElems dia nk (its.map Elem.plain) fs ls = (fs, denoteItems dia nk its ls) := by
-  intro its
-  induction its with
-  | nil => intro fs ls; rfl
-  | cons i r ih =>
-    intro fs ls
-    simp only [List.map_cons, denoteElems]
-    rw [ih, ← denoteItems_cons]
+theorem denoteElems_plain (dia : Dialect) (nk : Str → Str) (its : List Item) (fs : List Container) (ls : List Loop) :
+    denoteElems dia nk (its.map Elem.plain) fs ls = (fs, denoteItems dia nk its ls) :=
+  Spec.Grammar.denoteElems_plains dia nk its fs ls
 
 theorem frames_denote (o : Opts) : ∀ (frames : List WContainer) (es : List Elem) (fseen : List Str),
     FramesRel o frames es → framesN o frames fseen →
@@ -429,7 +416,7 @@ theorem frames_denote (o : Opts) : ∀ (frames : List WContainer) (es : List Ele
     obtain ⟨rf, hrf, hden⟩ := ih es' _ hrest h5
     refine ⟨Container.mk code [] rl :: rf, All2.cons ⟨code, loops, rl, rfl, rfl, hb⟩ hrf, ?_⟩
     intro tail fs ls
-    simp only [List.cons_append, denoteElems]
+    rw [List.cons_append, Spec.Grammar.denoteElems_frame, Spec.Grammar.denoteElems_plains]
     rw [hden, hrl]
     simp
 
